@@ -13,7 +13,7 @@ Proof.
     change (skipn (S i) (x :: p)) with (skipn i p). apply IH.
 Qed.
 
-Lemma collect_sublist want n : forall i p fl r, collect want n i p fl = Ok r -> sublist r (skipn i p).
+Lemma collect_sublist want n : forall i (p : path) fl r, collect want n i p fl = Ok r -> sublist r (skipn i p).
 Proof.
   induction n as [|n IH]; intros i p fl r H; cbn [collect] in H.
   - inversion H. apply sublist_nil_l.
